@@ -145,10 +145,46 @@ func pathDomain(root interface{}, path string) error {
 	if hasNestedArray(sub) {
 		return outside("nested array below the queried field")
 	}
-	if hasNumericKey(sub) {
-		return outside("numeric field name below the queried field")
+	// numeric field names matter only where a numeric segment of this path could be an index and a name at once
+	if pathAmbiguous(root, strings.Split(path, ".")) {
+		return outside("numeric segment that is both an index in range and a field name of an element")
 	}
 	return nil
+}
+
+// pathAmbiguous follows segs like lookup does and reports whether a numeric segment meets an array in which it is an
+// index in range while an embedded document of that array has a field of the same name (MongoDB then looks at both).
+func pathAmbiguous(v interface{}, segs []string) bool {
+	if len(segs) == 0 {
+		return false
+	}
+	switch x := v.(type) {
+	case bson.D:
+		for _, e := range x {
+			if e.Key == segs[0] {
+				return pathAmbiguous(e.Value, segs[1:])
+			}
+		}
+	case bson.A:
+		if i, ok := isIndex(segs[0]); ok && i < len(x) {
+			for _, el := range x {
+				if d, ok := el.(bson.D); ok {
+					for _, e := range d {
+						if e.Key == segs[0] {
+							return true
+						}
+					}
+				}
+			}
+			return pathAmbiguous(x[i], segs[1:])
+		}
+		for _, el := range x {
+			if d, ok := el.(bson.D); ok && pathAmbiguous(d, segs) {
+				return true
+			}
+		}
+	}
+	return false
 }
 
 func matchQuery(doc bson.D, q bson.D) (bool, error) {
